@@ -181,6 +181,16 @@ func genC01(t *rapid.T) statCase {
 		c.M = rapid.SampledFrom([]int{2, 5, 7}).Draw(t, "m")
 	}
 	c.Seq = gen.DrawSeq(t, n, nil)
+	// exactly equidistributed inputs: whole periods of a de Bruijn cycle whose order exceeds the pattern length. The true
+	// statistic is exactly 0 there (P = 1), so the computed one is pure rounding noise of either sign.
+	if (test == "apen" || test == "overlap" || test == "poker" || test == "pokerBytes") && rapid.IntRange(0, 7).Draw(t, "equidistributed") == 0 {
+		order := rapid.IntRange(c.M+1, 13).Draw(t, "order")
+		periods := rapid.IntRange(1, 8).Draw(t, "periods")
+		for periods<<uint(order) < 100 {
+			periods++
+		}
+		c.Seq = gen.Seq{Family: "debruijn", N: periods << uint(order), A: order, B: rapid.IntRange(0, 1<<uint(order)-1).Draw(t, "rotation"), Pos: []int{rapid.IntRange(0, 1).Draw(t, "complement")}}
+	}
 	return c
 }
 
